@@ -17,7 +17,7 @@ from .. import effects
 from ..dataflow import linform, lin_eq
 from ..strdom import Str, Hole, SELF, Role, Coll
 
-TECHNIQUE = ('static analysis: parameter-flow through constructor chains (use and forwarding), literal-vs-parameter name lint over the extracted equation templates, scope of discovery collections in the effect traces, branch-outcome facts and must-pass-through for the full-code rule')
+TECHNIQUE = ('static analysis: parameter-flow through constructor chains (use and forwarding), literal-vs-parameter name lint over the extracted equation templates, scope of discovery collections in the effect traces, branch-outcome facts and must-pass-through for the full-code rule; comparison-operator lint on currency codes; constructor fallback of the builders\' own economy')
 EXPLANATION = (
     'A renaming can only be label-neutral if every name the constructors accept actually reaches the variable names and '
     'templates built from it. The constructor chains are interpreted abstractly: each name parameter must be used and '
